@@ -2,20 +2,22 @@
 (* C05 - generator automaton of SVG path data, one TOKEN per step (a command letter or one
    number), so that TLC can enumerate every valid path up to MaxTok tokens (BFS, state dump) and
    walk far beyond that bound (-simulate).  The automaton carries the interpreter state of
-   SvgPath (on the abstract coordinates) because three of the constructs that are excluded while
-   the corresponding known findings are open are geometric:
+   SvgPath (on the abstract coordinates) because the constructs that were excluded while three
+   known findings were open are geometric.  All three are fixed (06800a3, ed5d06b, 2008ad3) and the
+   switches are FALSE in every configuration the check uses; they are kept so that an exclusion can
+   be switched back on, narrowly, should such a finding reopen:
 
-     ExclZ     a closepath is followed only by a moveto or a closepath             (known: C05 z-L)
-     ExclDeg   no smooth curveto directly after a curve whose control points coincide
-               exactly with its end points                                          (known: C05 deg-S)
+     ExclZ     a closepath is followed only by a moveto or a closepath
+     ExclDeg   no EXPLICIT smooth curveto directly after a curve whose control points coincide
+               exactly with its end points
      ExclZeroL no lineto or curve that is (after simplification) a zero-length line directly
-               after a curve                                                        (known: C05 C-L0-S)
+               after a curve
 
    Token encoding: a command letter is its byte (65..122); a number is 1000000 + v where v is the
    abstract coordinate (an integer; the driver decides how many decimals it stands for and in
    which notation it is written).  Arc flags are numbers 0/1. *)
 EXTENDS SvgPath, Json
-CONSTANTS MaxTok, MaxGroups, Coords, Radii, Rots, Letters, Modes, ExclZ, ExclDeg, ExclZeroL
+CONSTANTS MaxTok, MaxGroups, Coords, MCoords, Radii, Rots, Letters, Modes, ExclZ, ExclDeg, ExclZeroL
 VARIABLES toks, cmd, k, g, ng, vals, st, fl, mode
 vars == <<toks, cmd, k, g, ng, vals, st, fl, mode>>
 
@@ -107,6 +109,7 @@ Letter(c, md) ==
      ELSE UNCHANGED <<st, fl, ng>>
 
 ArgDomain(c, j) == IF IsArc(c) THEN (CASE j \in {1, 2} -> Radii [] j = 3 -> Rots [] j \in {4, 5} -> {0, 1} [] OTHER -> Coords)
+                   ELSE IF c \in {77, 109} /\ g = 0 THEN MCoords        \* where the (first) moveto goes
                    ELSE Coords
 ArgChoices == IF cmd = 0 \/ Arity(cmd) = 0 THEN {}
               ELSE IF Forced(k + 1) # None THEN {Forced(k + 1)[1]} ELSE ArgDomain(cmd, k + 1)
@@ -156,6 +159,7 @@ EmitAcc == Accepting2 => PrintT(ToJson(toks))
 LettersAll == CmdBytes
 LettersCurvePairs == {77, 67, 99, 83, 115, 81, 113, 84, 116, 76}    \* M C c S s Q q T t L
 CoordsTiny == {0, 1}
+CoordsZero == {0}
 CoordsSmall == {-1, 0, 1, 2}
 RadiiSmall == {0, 1, 2}
 RotsSmall == {0, 1}
